@@ -219,7 +219,7 @@ PROPS = {
                 "hash of the grid point. Part mutations: rapid-generated trees over hostile strings, encoded, then 1-4 drawn mutations; non-trivial = at least 2 "
                 "spec nodes.",
         "assumptions": ["wire messages are structurally complete (every nested error has a leaf or a wrapper set)"],
-        "parts": [plain("fault-grid", "TestGrid", shards={"quick": 16, "thorough": 16}), rapid("mutations", "TestMutations", 8000, 200000), fuzz("native-fuzz", "FuzzDecode", 180, replay_part="fuzz"), plain("fuzz", "TestFuzzReplay", tiers=[])],
+        "parts": [plain("fault-grid", "TestGrid", shards={"quick": 16, "thorough": 16}), rapid("mutations", "TestMutations", 8000, 200000), plain("unregister", "TestUnregister"), fuzz("native-fuzz", "FuzzDecode", 180, replay_part="fuzz"), plain("fuzz", "TestFuzzReplay", tiers=[])],
         "timeout": {"quick": 1200, "thorough": 7200},
     },
     "C10": {
